@@ -88,7 +88,8 @@ BUILTINS = {'len': len, 'bool': bool, 'tuple': tuple, 'list': list,
             'type': None, 'getattr': None, 'callable': None,
             'setattr': None, 'hasattr': None, 'super': None,
             'reversed': reversed, 'range': range, 'min': min, 'max': max,
-            'sum': sum, 'abs': abs, 'map': None, 'filter': None}
+            'sum': sum, 'abs': abs, 'map': None, 'filter': None, 'id': id,
+            'repr': None}
 
 
 # library functions that are pure functions of concrete text / numbers
@@ -664,6 +665,8 @@ class Interp:
                 if e is None:
                     raise Unsupported('isinstance through an indirect call')
                 return self.isinstance_oracle(args[0], e.args[1])
+            if name == 'id' and len(args) == 1:
+                return id(args[0])
             fn = BUILTINS.get(name)
             args = [a.attrs['__items__'] if isinstance(a, Obj) and
                     '__items__' in a.attrs else a for a in args]
